@@ -275,8 +275,8 @@ class PaxosNode(Entity):
         metadata = event.context.get("metadata", {})
         ballot_number = metadata["ballot_number"]
 
-        if ballot_number not in self._phase1_responses:
-            return []
+        if ballot_number not in self._phase1_responses or ballot_number not in self._proposed_values:
+            return []  # unknown ballot, or one abandoned by a retry
 
         accepted_ballot = None
         if metadata.get("accepted_ballot_number") is not None:
@@ -438,6 +438,9 @@ class PaxosNode(Entity):
         metadata = event.context.get("metadata", {})
         ballot_number = metadata["ballot_number"]
         self._accepts_received += 1
+
+        if ballot_number not in self._proposed_values:
+            return []  # ballot abandoned by a retry: its value moved to the new ballot
 
         if ballot_number not in self._phase2_responses:
             self._phase2_responses[ballot_number] = 0
